@@ -830,8 +830,8 @@ theorem sliceByLine_fast_slow_any {cfg : Config} (m : MatcherI) (σ : Script) (h
       | err => exact ⟨by simp only [Run.events]; rw [h2], rfl⟩
       | ok o =>
         dsimp only
-        have fa := finish_events σ sA (byteCount sA) sA.binaryByteOffset
-        have fb := finish_events σ sB (byteCount sB) sB.binaryByteOffset
+        have fa := finish_events σ sA (byteCount cfg sA) sA.binaryByteOffset
+        have fb := finish_events σ sB (byteCount cfg sB) sB.binaryByteOffset
         simp only [Run.events]
         rw [fa.1, fa.2, fb.1, fb.2, h2, h3]
         exact ⟨noCount_snoc _ _ _ _, rfl⟩
